@@ -30,6 +30,7 @@ META = {
                      "ciborium data model"],
 }
 META["decides"] += " (As built: the KDF context's trailing byte strings and its encoder are decided as sequence values; shares C08's frame rule.)"
+META["decides"] += ' Also: duplicate rule, read_to_value, no decoding error swallowed, every entry dispatched, int<u64> narrowed from the CBOR integer itself, extras encoder skips nothing.'
 
 CLAIMS_DEC = "<cwt::ClaimsSet as common::AsCborValue>::from_cbor_value"
 CENSUS = {
